@@ -3,6 +3,7 @@ from pyvc.contracts import contract, spec, ghost
 
 M = "fparser.common.readfortran:"
 
+ghost("raw_lines", "int")    # number of physical lines drawn from the underlying source so far
 ghost("last_raw", "str")      # the most recent physical line handed out by the underlying source
 
 # G2: lines taken from the source and not put back
@@ -12,9 +13,9 @@ spec("normalised", "raw:str", "str", "raw.expandtabs().replace('\\xa0', ' ').rst
 
 contract("ext:source_next", trusted=True,
     types=dict(source="any"), returns="str",
-    modifies=["last_raw"],
-    ensures={"recorded": "last_raw == result"},
-    raises={"StopIteration": {}},
+    modifies=["last_raw", "raw_lines"],
+    ensures={"recorded": "last_raw == result", "counted": "raw_lines == old(raw_lines) + 1"},
+    raises={"StopIteration": {"nothing_drawn": "raw_lines == old(raw_lines)"}},
     note="next() on the underlying text source: yields a physical line or raises StopIteration")
 
 contract(M + "FortranReaderBase.put_single_line",
@@ -32,7 +33,7 @@ contract(M + "FortranReaderBase.put_single_line",
 contract(M + "FortranReaderBase.get_single_line",
     types=dict(self="FortranReaderBase", ignore_empty="bool", ignore_comments="bool?"),
     returns="str?",
-    modifies=["self.filo_line", "self.linecount", "self.isclosed", "self.source_lines", "last_raw"],
+    modifies=["self.filo_line", "self.linecount", "self.isclosed", "self.source_lines", "last_raw", "raw_lines"],
     calls={"next": "ext:source_next", "self.close_source": "ignore",
            "_is_fix_comment": M + "_is_fix_comment"},
     ensures={
@@ -46,6 +47,8 @@ contract(M + "FortranReaderBase.get_single_line",
         "fresh_line_is_cached_last": "implies(result is not None and len(old(self.filo_line)) == 0, "
                                      "len(self.source_lines) > len(old(self.source_lines)) and result == self.source_lines[len(self.source_lines) - 1] "
                                      "and self.linecount > old(self.linecount))",
+        # C07: every physical line drawn from the source is cached (and thereby counted, LC), whether or not it is handed out
+        "every_physical_line_is_cached": "len(self.source_lines) - len(old(self.source_lines)) == raw_lines - old(raw_lines)",
         "fresh_line_normalised_then_sentinels": "implies(result is not None and len(old(self.filo_line)) == 0, result == "
             "(FortranReaderBase.replace_omp_sentinels(normalised(last_raw), self._re_omp_sentinel)[0] "
             " if (self._include_omp_conditional_lines and not self._format._is_free) else normalised(last_raw)))",
@@ -57,7 +60,7 @@ contract(M + "FortranReaderBase.get_single_line",
 contract(M + "FortranReaderBase.get_next_line",
     types=dict(self="FortranReaderBase", ignore_empty="bool", ignore_comments="bool?"),
     returns="str?",
-    modifies=["self.filo_line", "self.linecount", "self.isclosed", "self.source_lines", "last_raw"],
+    modifies=["self.filo_line", "self.linecount", "self.isclosed", "self.source_lines", "last_raw", "raw_lines"],
     ensures={
         "LC_kept": "LC(self) == old(LC(self))",
         "peek_leaves_count": "implies(len(old(self.filo_line)) > 0 or result is None or True, self.linecount <= old(self.linecount) + len(self.source_lines) - len(old(self.source_lines)))",
@@ -119,7 +122,7 @@ contract(M + "FortranReaderBase.get_source_item@cpp",
     requires={"directive_on_top": "len(self.filo_line) > 0 and self.filo_line[len(self.filo_line) - 1].lstrip().startswith('#') "
                                   "and self.filo_line[len(self.filo_line) - 1] != '' and not (self._format._is_free and self._format._is_strict)",
               "inv": "INV_LC(self)"},
-    modifies=["self.filo_line", "self.linecount", "self.isclosed", "self.source_lines", "last_raw"],
+    modifies=["self.filo_line", "self.linecount", "self.isclosed", "self.source_lines", "last_raw", "raw_lines"],
     ensures={
         "is_directive_item": "result is not None and typeof_is(result, 'CppDirective')",
         "span_is_lines_taken": "result.span[0] == old(self.linecount) + 1 and result.span[1] == self.linecount and result.span[1] >= result.span[0]",
